@@ -54,8 +54,8 @@ func (s *obSink) add(key, pos, verdict, reason string) {
 	}
 	s.obs = append(s.obs, Ob{Rule: s.rule, Key: key, Pos: pos, Verdict: verdict, Reason: reason})
 }
-func (s *obSink) ok(key, pos, reason string)   { s.add(key, pos, OK, reason) }
-func (s *obSink) bad(key, pos, reason string)  { s.add(key, pos, VIOLATED, reason) }
+func (s *obSink) ok(key, pos, reason string)    { s.add(key, pos, OK, reason) }
+func (s *obSink) bad(key, pos, reason string)   { s.add(key, pos, VIOLATED, reason) }
 func (s *obSink) undec(key, pos, reason string) { s.add(key, pos, UNDECIDED, reason) }
 func (s *obSink) check(cond bool, key, pos, okReason, badReason string) {
 	if cond {
